@@ -91,8 +91,8 @@ def peel_off_esc_code(s: str) -> Tuple[str, Optional[Token], str]:
                     ["""+'\x9b' + r"""])
                 (?P<private>)
                 (?P<numbers>
-                    (?:\d+;)*
-                    (?:\d+)?)
+                    (?:\d*;)*
+                    \d*)
                 (?P<intermed>""" + '[\x20-\x2f]*)' + r"""
                 (?P<command>""" + '[\x40-\x7e]))' + r"""
             (?P<rest>.*)"""
@@ -119,8 +119,9 @@ def peel_off_esc_code(s: str) -> Tuple[str, Optional[Token], str]:
         d: Dict[str, Any] = m.groupdict()
         del d["front"]
         del d["rest"]
-        if "numbers" in d and all(d["numbers"].split(";")):
-            d["numbers"] = [int(x) for x in d["numbers"].split(";")]
+        if "numbers" in d and d["numbers"]:
+            # an empty parameter stands for its default, 0
+            d["numbers"] = [int(x or 0) for x in d["numbers"].split(";")]
 
         return m.groupdict()["front"], cast(Token, d), m.groupdict()["rest"]
     else:
